@@ -57,6 +57,16 @@ def handleAlg (op : String) (j : Json) : Option (Except String Json) :=
     let c ← getC (← j.getObjVal? "c1")
     let simp ← getBool (← j.getObjVal? "simplify")
     pure (both (fun P => PolyAlg.mk P c.a c.g c.ins c.outs simp) [] [])
+  | "optimize_c" => run do
+    let c ← getC (← j.getObjVal? "c1")
+    let obj ← getLin (← j.getObjVal? "obj")
+    let mx ← getBool (← j.getObjVal? "max")
+    pure (jExcept (PolyAlg.optimizeC theOracle c obj mx) (fun o => match o with | some q => jRat q | none => Json.null))
+  | "bounds_c" => run do
+    let c ← getC (← j.getObjVal? "c1")
+    let x ← (← j.getObjVal? "var").getNat?
+    let jo (o : Option Rat) : Json := match o with | some q => jRat q | none => Json.null
+    pure (jExcept (PolyAlg.boundsC theOracle c x) (fun p => Json.arr #[jo p.1, jo p.2]))
   | "rename" => run do
     let c ← getC (← j.getObjVal? "c1")
     let s ← (← j.getObjVal? "src").getNat?
